@@ -1,6 +1,7 @@
 (* C20 -- finite-difference calculus on compressed tensors matches the dense stencil.  Statements only.
    Model: Model/Deriv.v (one linear map on the differentiated mode). *)
 From TN Require Import Proofs.DerivP Proofs.ArithP Proofs.SumNetsP Proofs.DerivSumP Alg.Inst.
+From TN Require Import Alg.InstR Proofs.GenInst Proofs.GenDerivP Proofs.GenDerivInst Gen.Generated.
 
 Section C20.
 Variable K : Ops.
@@ -46,7 +47,45 @@ Theorem C20_partial_shape : forall (order k n : nat) hinv periodic (cs : list (s
 Proof. exact (partial_good K). Qed.
 End C20.
 
+(* ---- divergence, curl and laplacian as the translator reads them from derivatives.py on this run (Gen/Generated.v,
+   variant "bounds = one pair per mode"), instantiated with the kernel models over the reals.  [Dn sh d o h f] is the dense
+   side: the non-periodic stencil of C20_partial / C20_stencil applied o times along mode d of the array f, each time
+   multiplied by h = 1/step of mode d.  A change of derivatives.py that pairs a component, a mode or a mode's bounds
+   differently changes the generated term and these statements stop type-checking or proving. ---- *)
+Section C20_vector_calculus.
+Variable sh : list nat.
+Hypothesis sh_ne : sh <> [].
+Notation net := (list (score RO)).
+Notation okR := (okR sh).
+Open Scope R_scope.
+
+Theorem C20_curl : forall (t0 t1 t2 : net) (hinv : nat -> R), length sh = 3%nat -> okR t0 -> okR t1 -> okR t2 ->
+  exists c0 c1 c2,
+    gen_derivatives_curl_P net r_add r_smul (list net) s_nth (nat -> R) R (fun b n => b n) r_partial [t0; t1; t2] hinv
+      = [c0; c1; c2] /\ okR c0 /\ okR c1 /\ okR c2 /\
+  forall i, in_range sh i = true ->
+    eval c0 i = Dn sh 1 1 (hinv 1%nat) (eval t2) i - Dn sh 2 1 (hinv 2%nat) (eval t1) i /\
+    eval c1 i = Dn sh 2 1 (hinv 2%nat) (eval t0) i - Dn sh 0 1 (hinv 0%nat) (eval t2) i /\
+    eval c2 i = Dn sh 0 1 (hinv 0%nat) (eval t1) i - Dn sh 1 1 (hinv 1%nat) (eval t0) i.
+Proof. exact (curl_spec sh). Qed.
+
+Theorem C20_laplacian : forall (t : net) (hinv : nat -> R), okR t ->
+  let r := gen_derivatives_laplacian_P net (@length _) (nat -> R) R (fun b n => b n) r_partial r_pysum t hinv in
+  okR r /\ forall i, in_range sh i = true ->
+    eval r i = sum_upto (length sh) (fun n => Dn sh n 2 (hinv n) (eval t) i).
+Proof. exact (laplacian_spec sh sh_ne). Qed.
+
+Theorem C20_divergence : forall (ts : list net) (hinv : nat -> R), length ts = length sh -> Forall okR ts ->
+  let r := gen_derivatives_divergence_P net (list net) s_nth (@length _) (nat -> R) R (fun b n => b n) r_partial r_pysum ts hinv in
+  okR r /\ forall i, in_range sh i = true ->
+    eval r i = sum_upto (length sh) (fun n => Dn sh n 1 (hinv n) (eval (s_nth ts n)) i).
+Proof. exact (divergence_spec sh sh_ne). Qed.
+End C20_vector_calculus.
+
 Print Assumptions C20_partial.
+Print Assumptions C20_curl.
+Print Assumptions C20_laplacian.
+Print Assumptions C20_divergence.
 Print Assumptions C20_stencil.
 Print Assumptions C20_constants_annihilated.
 Print Assumptions C20_affine_to_constant.
